@@ -173,7 +173,9 @@ class DictRun:
                 if f["fclass"] == "wall-timeout":
                     self.stat["inconclusive_wall"] += 1
                     continue
-                if prop in f["props"]:
+                # an abnormal end anywhere in a scenario of this property means the property could not hold on that execution
+                # (the dictionary could not be built / loaded / destroyed): it is reported under this property as well as under C07
+                if prop in f["props"] or f["crash"]:
                     relevant_any = True
                     if ctx is None:
                         ctx = case.ctx()
